@@ -33,7 +33,7 @@ CONFIG = {
     "C06": {"race": "TestC06"},
     "C07": {"race": "TestC07Concurrent"},
     "C08": {"race": "TestC08"},
-    "C09": {},
+    "C09": {"race": "TestC09Concurrent"},
     "C10": {"race": "TestC10Shared"},
     "C11": {"race": "TestC11Shared"},
     "C12": {},
